@@ -39,6 +39,7 @@ pub fn stages_for(property: &str, tier: &str) -> Vec<Stage> {
         ],
         "C06" => vec![
             Stage { name: "defaults", focus: Focus::Defaults, faults: false, runs: 4000 * m, stream: 5 },
+            Stage { name: "defaults+faults", focus: Focus::Defaults, faults: true, runs: 2000 * m, stream: 12 },
         ],
         "C07" => vec![
             Stage { name: "cycles", focus: Focus::Cycles, faults: false, runs: 4000 * m, stream: 6 },
